@@ -5,9 +5,11 @@
     of the component properties (section hypotheses below, each named after its provider); the
     [_inst] theorems at the end discharge the hypotheses for a concrete codec/framing, so they are
     satisfiable and the composition is not vacuous. *)
-From Coq Require Import List Bool Arith Permutation NArith.
+From Coq Require Import List Bool Arith Permutation NArith ZArith.
 Import ListNotations.
-From SioV Require Import Sio.EndToEnd Sio.EndToEndInst.
+From SioV Require Import Base.GoSem Eio.Packet Eio.Batcher.
+From SioV Require Import Base.Conc Sio.Pipeline.
+From SioV Require Import Sio.EndToEnd Sio.EndToEndInst Sio.EndToEndReal Sio.EndToEndSched.
 
 Section C01.
   (** C09/C10: Socket.IO codec. One packet = header frame + attachments; an idle decoder fed the
@@ -23,11 +25,14 @@ Section C01.
   Hypothesis C09_codec_roundtrip : forall e, feed d0 (enc e) = (d0, [e]).
   Hypothesis C09_codec_silent_prefix :
     forall e p s, enc e = p ++ s -> s <> [] -> snd (feed d0 p) = [].
-  (** C11: Engine.IO framing of one transport send round-trips. *)
+  (** C11: Engine.IO framing of one transport send round-trips on well-formed message packets,
+      and those are what the codec produces. *)
+  Variable frame_ok : frame -> Prop.
+  Hypothesis C09_enc_frames_ok : forall e, Forall frame_ok (enc e).
   Variable wunit : Type.
   Variable pack : list frame -> wunit.
   Variable unpack : wunit -> list frame.
-  Hypothesis C11_framing_roundtrip : forall b, unpack (pack b) = b.
+  Hypothesis C11_framing_roundtrip : forall b, Forall frame_ok b -> unpack (pack b) = b.
   (** C13: the receiving transport's size decision per wire unit. *)
   Variable accepts : wunit -> bool.
   (** TCP / HTTP / websocket library: reliable FIFO per connection (assumed; tied by the live rig). *)
@@ -79,7 +84,7 @@ Section C01.
   Proof.
     exact (fun c ems tr batches Hs Hil Hw Hl Hsig =>
       exactly_once_intact name name_eqb name_eqb_eq arg offset off_arg frame enc dstate d0 dec_step
-        C09_codec_roundtrip wunit pack unpack C11_framing_roundtrip accepts link link_fifo hs get_all
+        C09_codec_roundtrip frame_ok C09_enc_frames_ok wunit pack unpack C11_framing_roundtrip accepts link link_fifo hs get_all
         C18_get_all C18_registrations_distinct c ems tr batches Hil Hw Hl Hsig
         (handlers_ok_fixed name hs c Hs)).
   Qed.
@@ -106,7 +111,7 @@ Section C01.
                         /\ hname name h = fst e /\ a = snd e).
   Proof.
     exact (exactly_once_intact name name_eqb name_eqb_eq arg offset off_arg frame enc dstate d0 dec_step
-        C09_codec_roundtrip wunit pack unpack C11_framing_roundtrip accepts link link_fifo hs get_all
+        C09_codec_roundtrip frame_ok C09_enc_frames_ok wunit pack unpack C11_framing_roundtrip accepts link link_fifo hs get_all
         C18_get_all C18_registrations_distinct).
   Qed.
 
@@ -175,3 +180,83 @@ Example C01_recovery_on_fixed_example :
   handed iarg 0 (ideliveries 1000000 witness_hs (mkCfg true true false) witness_batches)
   = [[IStr [104; 105]%N]].
 Proof. exact inst_fixed_example. Qed.
+
+(** * Over the real transport models: websocket framing of Eio/Codec.v (round trip = C11's
+    theorems, discharged), sends cut by the real batcher of Eio/Batcher.v (sequence kept = C13's
+    theorem, discharged).  The Socket.IO codec stays a hypothesis (C09/C10). *)
+Section C01_real_transport.
+  Variables (name arg offset dstate : Type).
+  Variable name_eqb : name -> name -> bool.
+  Hypothesis name_eqb_eq : forall a b, name_eqb a b = true <-> a = b.
+  Variable off_arg : offset -> arg.
+  Variable enc : event name arg -> list packet.
+  Variable d0 : dstate.
+  Variable dec_step : dstate -> packet -> dstate * option (event name arg).
+  Hypothesis C09_codec_roundtrip :
+    forall e, feed name arg packet dstate dec_step d0 (enc e) = (d0, [e]).
+  Hypothesis C09_frames_are_message_packets : forall e, Forall msg_ok (enc e).
+  Variable hs : list (handler name).
+  Hypothesis C18_registrations_distinct : NoDup (map (hid name) hs).
+
+  Theorem C01_exactly_once_intact_real_websocket :
+    forall (c : cfg) (ems : list (list (event name arg * offset))) tr (maxp rmax : Z) polling,
+      client_strips_offset c = false ->
+      Interleave ems tr ->
+      let frames := wire name arg offset off_arg packet enc c tr in
+      let batches := write_writable maxp polling frames in
+      within_limits packet (list (bool * bytes)) ws_pack (ws_accepts rmax) batches ->
+      sig_matches name arg hs (map fst (concat ems)) ->
+      forall h, In h hs ->
+        Permutation
+          (handed arg (hid name h)
+             (real_deliveries name arg dstate name_eqb d0 dec_step hs rmax c batches))
+          (args_named name name_eqb arg (hname name h) (map fst (concat ems))).
+  Proof.
+    exact (real_ws_exactly_once name arg offset dstate name_eqb name_eqb_eq off_arg enc d0 dec_step
+             C09_codec_roundtrip C09_frames_are_message_packets hs C18_registrations_distinct).
+  Qed.
+End C01_real_transport.
+
+(** * Over ALL SCHEDULES of C02's concurrent model (Sio/Pipeline.v): emitter goroutines, packet
+    queue, drainer, transport (websocket / polling either side, any sequence-keeping splitter),
+    control packets, the peer's parser, one dispatch goroutine per finished packet entering the
+    handlers in ANY order.  The emitters' programs are the encodings of the stamped events; the
+    codec is a packet-level hypothesis (C09).  In every reachable quiescent state the parser has
+    not failed and every registered handler has been handed, as a multiset, exactly the argument
+    lists emitted under its name. *)
+Section C01_all_schedules.
+  Variables (name arg offset data : Type).
+  Variable name_eqb : name -> name -> bool.
+  Hypothesis name_eqb_eq : forall a b, name_eqb a b = true <-> a = b.
+  Variable off_arg : offset -> arg.
+  Variable hs : list (handler name).
+  Variable get_all : name -> list (handler name).
+  Hypothesis C18_get_all : forall n, get_all n = filter (fun h => name_eqb (hname name h) n) hs.
+  Hypothesis C18_registrations_distinct : NoDup (map (hid name) hs).
+  Variable declared : data -> option nat.
+  Variable max_atts : nat.
+  Variable split : list (frame data) -> list (list (frame data)).
+  Hypothesis C13_split_keeps_sequence : forall b, concat (split b) = b.
+  Variable encode_sp : event name arg -> spacket data.
+  Variable decode_sp : spacket data -> option (event name arg).
+  Hypothesis C09_packet_roundtrip : forall e, decode_sp (encode_sp e) = Some e.
+  Hypothesis C09_encode_wf : forall e, wf_packet declared max_atts (encode_sp e).
+
+  Theorem C01_all_schedules_exactly_once :
+    forall (tr : transport) (c : cfg) (ems : list (list (event name arg * offset))) (s : state data),
+      client_strips_offset c = false ->
+      sig_matches name arg hs (map fst (concat ems)) ->
+      reachable_from declared max_atts split tr
+        (programs name arg offset off_arg data encode_sp c ems) s ->
+      quiescent_state s ->
+      st_rerr s = false /\ st_parser s = None /\
+      forall h, In h hs ->
+        Permutation
+          (handed arg (hid name h) (sched_deliveries name arg get_all data decode_sp c s))
+          (args_named name name_eqb arg (hname name h) (map fst (concat ems))).
+  Proof.
+    exact (all_schedules_exactly_once name arg offset name_eqb name_eqb_eq off_arg hs get_all
+             C18_get_all C18_registrations_distinct data declared max_atts split
+             C13_split_keeps_sequence encode_sp decode_sp C09_packet_roundtrip C09_encode_wf).
+  Qed.
+End C01_all_schedules.
